@@ -159,7 +159,40 @@ def ceemd (σ : Nat → Schedule) (F Fn : Sig → Sig) (mode : Mode) (scale : Ra
   let imf0 := ceemdImf (σ 0) F mode none x noise0
   ceemdLoop σ F Fn mode x stages 2 [imf0] (ceemdNoiseStep (σ 1) Fn noise0)
 
+/-! ### the noise amplitude as the code computes it: `noise_scaling = X.std() * ensemble_noise`
+
+  `std` is an oracle (`np.std`).  The amplitude is the PRODUCT and nothing else: there is no threshold below
+  which a non-zero product is treated as "no noise" (a member is sifted with `x ± (std x · level)·ν` at any
+  amplitude of `x`). -/
+
+def noiseScale (std : Sig → Rat) (level : Rat) (x : Sig) : Rat := std x * level
+
+/-- the array actually added to (subtracted from) the signal for member `i` -/
+def memberNoise {ρ : Type} (draw : ρ → Sig × ρ) (g : ρ) (std : Sig → Rat) (level : Rat) (x : Sig) (i : Nat) : Sig :=
+  Sig.smul (noiseScale std level x) (nthDraw draw g i)
+
+/-- `ensemble_sift(X, nensembles=N, ensemble_noise=level, noise_mode=mode)`: trace and result -/
+def ensembleTraceLevel {ρ : Type} (σ : Schedule) (draw : ρ → Sig × ρ) (g : ρ) (S : Sig → List Sig)
+    (mode : Mode) (N : Nat) (std : Sig → Rat) (level : Rat) (x : Sig) : List (Sig × List Sig) :=
+  ensembleTrace σ draw g S mode N (noiseScale std level x) x
+
+def ensembleSiftLevel {ρ : Type} (σ : Schedule) (draw : ρ → Sig × ρ) (g : ρ) (S : Sig → List Sig)
+    (mode : Mode) (N : Nat) (std : Sig → Rat) (level : Rat) (x : Sig) : List Sig :=
+  ensembleSift σ draw g S mode N (noiseScale std level x) x
+
+/-- `complete_ensemble_sift(X, nensembles, ensemble_noise=level, …)` with the drawn matrix `M` -/
+def ceemdLevel (σ : Nat → Schedule) (F Fn : Sig → Sig) (mode : Mode) (std : Sig → Rat) (level : Rat)
+    (M : List Sig) (x : Sig) (stages : Nat) : List Sig × List Sig :=
+  ceemd σ F Fn mode (noiseScale std level x) M x stages
+
 /-! ## protocol -/
+
+/-- the noise scale of an op: either given (`scale=`) or computed by the model from the oracle value of
+    `np.std(x)` and the requested level (`std=`, `level=`) -/
+def opScale (o : Protocol.Op) (x : Sig) : Option Rat :=
+  match o.rat? "std", o.rat? "level" with
+  | some sd, some lv => some (noiseScale (fun _ => sd) lv x)
+  | _, _ => o.rat? "scale"
 
 /-- oracle table lookup by argument (∞-norm tolerance) -/
 def close (tol : Rat) : Sig → Sig → Bool
@@ -247,10 +280,10 @@ def handle (o : Op) : Option String :=
       let some N := o.nat? "n" | return "bad-op"
       let some flip := o.nat? "flip" | return "bad-op"
       let some mode := parseMode flip | return "bad-op"
-      let some scale := o.rat? "scale" | return "bad-op"
       let some tol := o.rat? "tol" | return "bad-op"
       let some p := o.nat? "p" | return "bad-op"
       let some x := o.vec? 0 | return "bad-op"
+      let some scale := opScale o x | return "bad-op"
       let some order := o.vec? 1 | return "bad-op"
       let some workers := o.vec? 2 | return "bad-op"
       let some noises := takeVecs o.vecs 3 N | return "bad-op"
@@ -273,13 +306,13 @@ def handle (o : Op) : Option String :=
       let some N := o.nat? "n" | return "bad-op"
       let some flip := o.nat? "flip" | return "bad-op"
       let some mode := parseMode flip | return "bad-op"
-      let some scale := o.rat? "scale" | return "bad-op"
       let some tol := o.rat? "tol" | return "bad-op"
       let some stages := o.nat? "stages" | return "bad-op"
       let some nf := o.nat? "nf" | return "bad-op"
       let some nn := o.nat? "nn" | return "bad-op"
       let some rot := o.nat? "rot" | return "bad-op"
       let some x := o.vec? 0 | return "bad-op"
+      let some scale := opScale o x | return "bad-op"
       let some M := takeVecs o.vecs 1 N | return "bad-op"
       let some tf := parsePairs o.vecs (1 + N) nf | return "bad-op"
       let some tn := parsePairs o.vecs (1 + N + 2 * nf) nn | return "bad-op"
